@@ -12,10 +12,13 @@ Open Scope N_scope.
    constructor's range and the weight fed in fits the counter type *)
 Theorem c17_countmin_no_valid_program_is_stuck :
   forall nh nb mx sh, 1 <= nh < 256 -> 3 <= nb < 4294967296 -> nh * nb < zN Gen.GenCountMin.MAX_TABLE_ENTRIES ->
-  sh < 65536 -> mx < M64 ->
+  0 < sh < 65536 -> mx < M64 ->
   forall bucket : N -> N -> N, (forall x r, bucket x r < nb) ->
   forall p : prog, pok nh nb mx sh p -> pweight mx sh p <= mx -> ~ has_image p ->
-  exists s f, eval nh nb mx sh bucket p = Ok s /\ LB nh nb mx sh bucket s f /\ cm_total s <= pweight mx sh p /\ wfc mx sh s.
+  exists s, eval nh nb mx sh bucket p = Ok s /\ LB nh nb mx sh bucket s (ptruth p) /\ cm_total s <= pweight mx sh p /\ wfc mx sh s /\
+            (* the implicit panic sites `counts[row * num_buckets + bucket]` (the model's nthN / set_nthN are total):
+               every index update and estimate compute lies inside the table *)
+            (forall x r, r < nh -> (N.to_nat (r * nb + bucket x r) < length (cm_counts s))%nat).
 Proof. exact api_no_stuck. Qed.
 
 (* ... and when a program also uses sketches deserialized from ARBITRARY bytes (leaf PImage bs; its weight is
@@ -23,18 +26,29 @@ Proof. exact api_no_stuck. Qed.
    to completion, or an image leaf was rejected with Err *)
 Theorem c17_countmin_no_valid_program_with_images_is_stuck :
   forall nh nb mx sh, 1 <= nh < 256 -> 3 <= nb < 4294967296 -> nh * nb < zN Gen.GenCountMin.MAX_TABLE_ENTRIES ->
-  sh < 65536 -> mx < M64 ->
+  0 < sh < 65536 -> mx < M64 ->
   forall bucket : N -> N -> N, (forall x r, bucket x r < nb) ->
   forall p : prog, pok nh nb mx sh p -> pweight mx sh p <= mx ->
-  (exists s f, eval nh nb mx sh bucket p = Ok s /\ LB nh nb mx sh bucket s f /\ cm_total s <= pweight mx sh p /\ wfc mx sh s) \/
+  (exists s, eval nh nb mx sh bucket p = Ok s /\ LB nh nb mx sh bucket s (ptruth p) /\ cm_total s <= pweight mx sh p /\ wfc mx sh s) \/
   (eval nh nb mx sh bucket p = Err /\ has_image p).
 Proof. exact api_no_stuck_general. Qed.
+
+(* the constructor panics exactly outside its documented ranges (num_hashes 0, num_buckets < 3, table too large,
+   a seed whose hash is zero); the crate's decay is the clamped scaling c -> min(f c, c), admissible in a program
+   (pok) as soon as its float part f is monotone (g 0 = 0 and g c <= c hold by the clamp) *)
+Theorem c17_countmin_constructor_panics_outside_range :
+  forall nh nb mx sh, nh = 0 \/ nb < 3 \/ zN Gen.GenCountMin.MAX_TABLE_ENTRIES <= nh * nb \/ sh = 0 -> cm_new nh nb mx sh = Stuck.
+Proof. exact cm_new_stuck. Qed.
+
+Theorem c17_countmin_decay_is_admissible :
+  forall f : N -> N, (forall a b, a <= b -> f a <= f b) -> sop_ok (SScale (decay_clamp f)).
+Proof. exact decay_clamp_ok. Qed.
 
 (* the queries of a valid program's sketch: lower_bound = estimate <= total weight, and the
    (repaired, saturating) upper_bound lies between the estimate and T::MAX, for every error term *)
 Theorem c17_countmin_queries_ordered :
   forall nh nb mx sh, 1 <= nh < 256 -> 3 <= nb < 4294967296 -> nh * nb < zN Gen.GenCountMin.MAX_TABLE_ENTRIES ->
-  sh < 65536 -> mx < M64 ->
+  0 < sh < 65536 -> mx < M64 ->
   forall bucket : N -> N -> N, (forall x r, bucket x r < nb) ->
   forall p s x err, pok nh nb mx sh p -> pweight mx sh p <= mx -> eval nh nb mx sh bucket p = Ok s ->
   cm_lower_bound s (bk_of nh bucket x) <= cm_total s /\
